@@ -198,6 +198,21 @@ def lagrangeDeriv (xs : List Rat) (rows : List (List Rat)) (dim w : Nat) (bounds
       | .error e => .error e
       | .ok lo => .ok (v, centralDiff hi lo dx)
 
+/-- `interpolate(x, y, x_new, kind="barycentric_interpolator")` — specification: SciPy's
+`BarycentricInterpolator` evaluates *the* interpolating polynomial through all samples (given in any order,
+no bounds check): the Lagrange interpolant whose window is the whole sample set.  Equal abscissae have no
+interpolating polynomial (SciPy divides by zero there). -/
+def barycentric (xs : List Rat) (rows : List (List Rat)) (dim : Nat) (xnew : List Rat) :
+    Except Err (List (List Rat)) :=
+  if rows.length != xs.length then .error .shape
+  else if xs.length = 0 then .error .short
+  else
+    let pairs := sortBy (xs.zip rows)
+    let sx := pairs.map (·.1)
+    let sy := pairs.map (·.2)
+    if !strictInc sx then .error .unsorted
+    else .ok (xnew.map (fun x => lagrangeAt sx sy dim sx.length (mean sx) 1 x))
+
 /-! ## Piecewise linear interpolation (`interpolation.linear` = SciPy `interp1d(kind="linear")`, modelled) -/
 
 /-- `np.searchsorted(x, v)` (side left): number of abscissae `< v` -/
@@ -226,6 +241,17 @@ def linear (xs : List Rat) (rows : List (List Rat)) (dim : Nat) (xnew : List Rat
     if minL xnew < minL sx then .error .below
     else if maxL xnew > maxL sx then .error .above
     else .ok (xnew.map (fun x => linearAt sx sy dim x))
+
+/-! ## `midgard.math.nputil`: `norm`, `unit_vector`, `take` along the last axis -/
+
+/-- `norm(v) ** 2` for one vector (the square root itself is a parameter of `unitVector`) -/
+def normSq (v : List Rat) : Rat := (v.map (fun a => a * a)).sum
+
+/-- `unit_vector(v) = v / np.linalg.norm(v)`; `n` is the value the code obtained for the norm -/
+def unitVector (v : List Rat) (n : Rat) : List Rat := v.map (· / n)
+
+/-- `take(v, i)` on a 2-dimensional array: component `i` of every row (1-dimensional: `List.getD`) -/
+def takeLast (rows : List (List Rat)) (i : Nat) : List Rat := rows.map (·.getD i 0)
 
 /-! ## Dilution of precision (`compute_dops`) -/
 
@@ -322,6 +348,17 @@ def findPole (tbl : List PoleRow) (model plate : String) : Option PoleRow :=
 /-- `PlateMotion(plate, model).get_velocity(pos)` -/
 def plateVelocity (model plate : String) (p : Rat) (pos : V3) : Option V3 :=
   (findPole poles model plate).map (fun r => cross (poleOmega r p) pos)
+
+/-- `PlateMotion.to_cartesian([lat°, lon°, ω °/Myr])` in mas/yr: `cl, sl, co, so` are the values the code obtained
+for cos/sin of the latitude and longitude (parameters, like the satellite directions of `compute_dops`); the unit
+factors `degree→radian`, `/ 10⁶`, `radian→milliarcsecond` multiply to `3600000 / 10⁶` (π cancels) -/
+def toCartesianQ (cl sl co so w : Rat) : V3 :=
+  let k : Rat := 3600000 / 1000000
+  ⟨w * cl * co * k, w * cl * so * k, w * sl * k⟩
+
+/-- the square of the rotation rate `to_spherical` returns for a Cartesian pole in mas/yr (°/Myr; the square root
+is not modelled) -/
+def omegaSq (p : V3) : Rat := dot3 p p * (1000000 / 3600000) * (1000000 / 3600000)
 
 /-! ## Linear regression (`LinearRegression`, statsmodels OLS on `[1, x]`) -/
 
